@@ -28,6 +28,15 @@ object / stolen by the call that consumes it. -/
 theorem stmts_acquire_release : ∀ r ∈ stmtRows, r.ownOk = true :=
   all_of_decide (by decide +kernel)
 
+/-- **Returned value comes from the variable the library was given**: an entry that hands a C++ local to the
+library (`cxx_local_var`, e.g. the `std::string` made from the parsed `char *`) builds the returned object
+(`fmtdict.ctor_expr`, used when the argument is the only returned value) from that local, not from the
+parsed C variable. -/
+theorem stmts_ctor_expr_uses_passed_var : ∀ r ∈ stmtRows, r.ctorVarOk = true :=
+  all_of_decide (by decide +kernel)
+
+example : (stmtRows.filter (fun r => r.cxxLocal && r.ctorArgs != 0)).length > 0 := by decide +kernel
+
 /-- an entry flagged `object_created` does create (or pass on) the object that is returned. -/
 theorem stmts_created_has_object : ∀ r ∈ stmtRows, r.createdOk = true :=
   all_of_decide (by decide +kernel)
